@@ -18,7 +18,7 @@ var Leaves = []reflect.Type{
 	T[int8](), T[int16](), T[int32](), T[int64](), T[uint](), T[uint8](), T[uint16](), T[uint32](), T[uint64](), T[uintptr](), T[float32](),
 	T[NamedBytes](), T[NamedString](), T[NamedInt](), T[json.Number](), T[json.RawMessage](), T[time.Time](),
 	T[VMStruct](), T[PMStruct](), T[VTStruct](), T[PTStruct](), T[VMString](), T[PTString](), T[VTInt](), T[PMInt](), T[VMSlice](), T[VTSlice](), T[VMMap](), T[ErrM](), T[ErrT](), T[Both](),
-	T[Iface](), T[Base](), T[struct{}](), T[VTPMStruct](), T[VTString](), T[RecPM](), T[NamedAny](), T[RecArr](), T[VUByte](), T[VMInt](), T[LazyFn](), T[ChanBox](), T[NamedIntPtr](), T[PTSlice](), T[PTMap](),
+	T[Iface](), T[Base](), T[struct{}](), T[VTPMStruct](), T[VTString](), T[RecPM](), T[NamedAny](), T[RecArr](), T[VUByte](), T[VMInt](), T[LazyFn](), T[ChanBox](), T[NamedIntPtr](), T[PTSlice](), T[PTMap](), T[UByteVTPM](),
 }
 
 // Statics are the hand-written struct types (embedding, tags, recursion).
